@@ -247,9 +247,26 @@ def load_graph(dot):
 # ------------------------------------------------------------------------------------------
 # harness runs
 # ------------------------------------------------------------------------------------------
+SCRIPTS = {}   # execution id -> (harness executable name, script block) of everything run by this process (for replay files)
+
+
+def _remember(exe, script_text):
+    name = Path(exe).name
+    cur = None
+    for line in script_text.split("\n"):
+        if line.startswith("X "):
+            cur = [line]
+        elif cur is not None:
+            cur.append(line)
+            if line == "E":
+                SCRIPTS[cur[0].split(" ")[1]] = (name, "\n".join(cur) + "\n")
+                cur = None
+
+
 def run_harness(exe, script_text, shards=None, timeout=1200, env=None, nofork=False):
     """Writes the script, runs `exe` in `shards` parallel processes, returns the list of parsed
     ndjson records grouped per execution id: {id: [records...]} (order preserved per execution)."""
+    _remember(exe, script_text)
     d = Path(tempfile.mkdtemp(prefix="h-", dir=str(scratch())))
     script = d / "script.txt"
     script.write_text(script_text)
@@ -313,6 +330,9 @@ class Verdict:
             if k.get("property") == self.pid and k.get("status") == "known" and re.search(k["signature_regex"], signature):
                 self.known_hits.setdefault(k["id"], {"k": k, "n": 0})["n"] += 1
                 return
+        xid = replay_obj.get("xid") if isinstance(replay_obj, dict) else None
+        if xid in SCRIPTS:
+            replay_obj = dict(replay_obj, harness=SCRIPTS[xid][0], script=SCRIPTS[xid][1])
         REPLAYS.mkdir(parents=True, exist_ok=True)
         fn = REPLAYS / ("%s-%s.json" % (self.pid, sha(signature, json.dumps(replay_obj, sort_keys=True, default=str))[:10]))
         if len(self.violations) < 20:
@@ -344,3 +364,42 @@ def write_evidence(pid, tier, seed, level, coverage, assumptions, wall_s, violat
         ev.update(extra)
     (EVIDENCE / (pid + ".json")).write_text(json.dumps(ev, indent=1, default=str) + "\n")
     return ev
+
+
+def replay(pid, path, mod):
+    """Re-executes the execution stored in a replay file on the current tree. Exit 1 if the violation repeats."""
+    from . import tracecheck
+    obj = json.loads(Path(path).read_text())
+    rp = obj.get("replay", {})
+    log("replaying %s (%s): %s" % (path, obj.get("property"), obj.get("signature")))
+    if "script" not in rp:
+        log("this replay file carries no executable script (history / input only):")
+        log(json.dumps(rp, indent=1, default=str)[:3000])
+        return 2
+    exes = mod.all_harnesses()
+    exe = exes.get(rp["harness"])
+    if exe is None:
+        raise InfraError("harness %s is not built by %s" % (rp["harness"], mod.__name__))
+    res = run_harness(exe, rp["script"], shards=1)
+    recs = next(iter(res.values()), [])
+    for r in recs:
+        if r.get("e") not in ("Step",):
+            log("  " + json.dumps(r)[:400])
+    bad = [r for r in recs if r.get("e") in ("Crash", "Race", "Deadlock")]
+    spec = getattr(mod, "TRACE_SPEC", None)
+    if spec and hasattr(mod, "p_events"):
+        module, cfg = spec(pid) if callable(spec) else spec
+        acc, rej, _ = tracecheck.validate(mod.SPEC, module, cfg, {"r": mod.p_events(recs)})
+        if rej:
+            info = rej["r"]
+            log("REPRODUCED: the property layer rejects this execution again after %d events, at %s" % (info["matched"], info["next"]))
+            log("VIOLATION property=%s replay=%s" % (pid, path))
+            return 1
+        log("not reproduced: the property layer accepts this execution on the current tree")
+        return 0
+    if bad:
+        log("REPRODUCED: %s" % json.dumps(bad[0])[:300])
+        log("VIOLATION property=%s replay=%s" % (pid, path))
+        return 1
+    log("executed without crash / race / deadlock; compare the observations above with the stored detail: %s" % str(obj.get("detail"))[:400])
+    return 0
